@@ -35,11 +35,15 @@ class Raise_(Exception):
 class Loop:
   """Loop contract, keyed by the loop's ordinal within the function (source order)."""
 
-  def __init__(self, inv, index=None, seq=None, decreases=None, note=''):
+  def __init__(self, inv, index=None, seq=None, decreases=None, note='',
+               ghost_init=(), ghost_end=(), lemmas=()):
     self.inv = [inv] if isinstance(inv, str) else list(inv)
     self.index = index    # name of the ghost iteration index
     self.seq = seq        # name of the ghost sequence being iterated
     self.note = note
+    self.ghost_init = list(ghost_init)  # ghost assignments 'name = expr' run before the loop
+    self.ghost_end = list(ghost_end)    # ghost assignments run at the end of every iteration
+    self.lemmas = list(lemmas)          # asserted (then assumed) at the end of an iteration
 
 
 class Contract:
@@ -47,7 +51,8 @@ class Contract:
 
   def __init__(self, file, qualname, params, requires=(), ensures=(),
                raises=None, loops=None, result=None, instance=None,
-               ghost=None, verify=True, pure=True, note='', may_raise=()):
+               ghost=None, verify=True, pure=True, note='', may_raise=(),
+               raises_ensures=None, no_alias=(), ghost_out=None, asserts=None):
     self.file = file
     self.qualname = qualname
     self.params = params            # ordered dict: name -> Sort | ('obj', cls) | ('cls', name) | ('seq*', Sort)
@@ -61,6 +66,10 @@ class Contract:
     self.verify = verify            # False: assumed contract (listed as trusted)
     self.note = note
     self.may_raise = may_raise
+    self.raises_ensures = dict(raises_ensures or {})  # ExcName -> [spec at the raise point]
+    self.asserts = dict(asserts or {})   # anchor (source prefix of a statement) -> [specs] asserted right after it
+    self.ghost_out = dict(ghost_out or {})  # ghost results visible to callers (fresh at each call)
+    self.no_alias = tuple(no_alias)   # list-of-lists params whose element lists are pairwise distinct objects
 
   @property
   def key(self):
@@ -103,6 +112,7 @@ class Theory:
     self.inline = set()   # (relpath, qualname)
     self.symbols = {}     # name -> value (V / Builtin) usable in specs
     self.axioms = []      # global z3 facts (definitions of spec functions)
+    self.lemmas = []      # (name, formula): proved from the axioms on every run, then used like axioms
     self.exc_parents = {}  # ExcName -> parent ExcName
     self.assumptions = []  # human-readable assumption list for the evidence
     self.opaque = {}      # (relpath, qualname) -> Builtin model
